@@ -1,5 +1,5 @@
 (* Pinned statements of C03: re-checked on every run. *)
-From SF Require Import Base.Prelude Gen.Generated Unsized.Types Unsized.Parse Unsized.Machine Unsized.Ops Unsized.Run Unsized.Proofs.EncodeParse Unsized.Proofs.Mem Unsized.Proofs.Notify Unsized.Proofs.Flat Unsized.Proofs.Layout Unsized.Proofs.Observe Unsized.Proofs.Path Unsized.Proofs.Context Unsized.Proofs.FocusOps Unsized.Proofs.NotifyInside Unsized.Proofs.Resize Unsized.Proofs.GenOps Unsized.Proofs.History Unsized.Proofs.Init Unsized.Proofs.History2 Unsized.Proofs.ExecTie Unsized.Proofs.History3 Unsized.Proofs.Enums Properties.C03.
+From SF Require Import Base.Prelude Gen.Generated Unsized.Types Unsized.Parse Unsized.Machine Unsized.Ops Unsized.Run Unsized.Proofs.EncodeParse Unsized.Proofs.Mem Unsized.Proofs.Notify Unsized.Proofs.Flat Unsized.Proofs.Layout Unsized.Proofs.Observe Unsized.Proofs.Path Unsized.Proofs.Context Unsized.Proofs.FocusOps Unsized.Proofs.NotifyInside Unsized.Proofs.Resize Unsized.Proofs.GenOps Unsized.Proofs.History Unsized.Proofs.Init Unsized.Proofs.History2 Unsized.Proofs.ExecTie Unsized.Proofs.History3 Unsized.Proofs.Enums Unsized.Proofs.InitKinds Unsized.Proofs.StringSet Properties.C03.
 
 Check (C03_all_ops_no_fault_in_any_history :
   forall ovf t h v s top pi0 v',
@@ -9,6 +9,10 @@ Check (C03_no_fault_in_any_full_history :
   forall ovf t h v s top pi0 v' obss,
     RepF pi0 t v s top -> m_refuse s <> 1 -> orunZ (m_cap s) t v h = Some (v', obss) ->
     exists s' top', mrunZ ovf t s top h = Ok (s', top', obss) /\ top_check s' top' = true /\ m_len s' <= m_cap s' /\ m_cap s' = m_cap s).
+Check (C03_no_fault_in_any_history_of_every_operation :
+  forall ovf t h v s top pi0 v' obss,
+    RepF pi0 t v s top -> m_refuse s <> 1 -> orunS (m_cap s) t v h = Some (v', obss) ->
+    exists s' top', mrunS ovf t s top h = Ok (s', top', obss) /\ top_check s' top' = true /\ m_len s' <= m_cap s' /\ m_cap s' = m_cap s).
 Check (C03_general_no_fault_in_any_history :
   forall ovf t h v s top pi0 v' l,
     RepF pi0 t v s top -> m_refuse s <> 1 -> orunE (m_cap s) (m_refuse s) t v h = Some (v', l) ->
@@ -38,6 +42,7 @@ Check (C03_swapped_accessor_detected :
 
 Print Assumptions C03_all_ops_no_fault_in_any_history.
 Print Assumptions C03_no_fault_in_any_full_history.
+Print Assumptions C03_no_fault_in_any_history_of_every_operation.
 Print Assumptions C03_general_no_fault_in_any_history.
 Print Assumptions C03_general_pointer_assertions_hold.
 Print Assumptions C03_notify_stays_in_allocation.
